@@ -88,6 +88,8 @@ func Run(rc *core.RunCtx) {
 		plan.ErrPM = 150
 	case 2:
 		plan.NullPM = 200
+	case 3:
+		plan.PanicPM = 120 // nested resolvers panic on some events: recovered at the field
 	}
 	u := uni.New(w, v, plan)
 	v.SetBlobHook(execsim.BlobHook)
@@ -889,10 +891,12 @@ func Run(rc *core.RunCtx) {
 			}
 		}
 	}
-	if got := int(panicsRecovered.Load()); got != wantRec {
-		rc.Fail("recover-count", "recover", "RecoverFunc invoked %d times for %d serialisation panics\n%s", got, wantRec, desc())
+	thrown := int(u.PanicsThrown.Load())
+	if got := int(panicsRecovered.Load()); got != wantRec+thrown {
+		rc.Fail("recover-count", "recover", "RecoverFunc invoked %d times for %d serialisation panics and %d resolver panics\n%s", got, wantRec, thrown, desc())
 		return
 	}
+	w.CountN("resolver_panics", thrown)
 	w.CountN("serialisation_panics", wantRec)
 	if n := closeCalls.Load(); n > 1 || (ackSeen && n != 1) {
 		rc.Fail("close-callback-count", fmt.Sprintf("%d", n), "CloseFunc fired %d times (ack seen: %v)\n%s", n, ackSeen, desc())
